@@ -1,4 +1,5 @@
 import PetgraphModel.Model.C06Views
+import PetgraphModel.Proofs.C06ExtractedNorm
 import PetgraphModel.Proofs.C06W2Base
 import PetgraphModel.Proofs.CsrIter
 import PetgraphModel.Theorems.C05
@@ -289,7 +290,7 @@ theorem adjLoop_spec (s : State) : ∀ (refs : List CsrM.ERef) (m : BitSet), m.c
     cases hd : s.directed with
     | true =>
       have hput : adjPut s m e = some { m with bits := (s.nodeCount * e.2.1 + e.2.2.1) :: m.bits } := by
-        simp [adjPut, BitSet.put, AdjWidth.bitBuild_Csr, h1, hd]
+        simp [adjPut, BitSet.put, AdjWidth.bitBuild_Csr_eq, h1, hd]
       obtain ⟨m', e1, e2, e3⟩ := ih { m with bits := (s.nodeCount * e.2.1 + e.2.2.1) :: m.bits } hcap
         (fun x hx => hlt x (List.mem_cons_of_mem _ hx))
       refine ⟨m', by simp [adjLoop, hput, e1], e2, fun i => ?_⟩
@@ -307,7 +308,7 @@ theorem adjLoop_spec (s : State) : ∀ (refs : List CsrM.ERef) (m : BitSet), m.c
     | false =>
       have hput : adjPut s m e = some { m with bits := (e.2.1 + s.nodeCount * e.2.2.1) ::
           (s.nodeCount * e.2.1 + e.2.2.1) :: m.bits } := by
-        simp [adjPut, BitSet.put, AdjWidth.bitBuild_Csr, AdjWidth.bitBuildSym_Csr, h1, h2, hd]
+        simp [adjPut, BitSet.put, AdjWidth.bitBuild_Csr_eq, AdjWidth.bitBuildSym_Csr_eq, h1, h2, hd]
       obtain ⟨m', e1, e2, e3⟩ := ih { m with bits := (e.2.1 + s.nodeCount * e.2.2.1) ::
           (s.nodeCount * e.2.1 + e.2.2.1) :: m.bits } hcap
         (fun x hx => hlt x (List.mem_cons_of_mem _ hx))
@@ -367,7 +368,7 @@ theorem csr_adjacency (good : Good s R) (hf : IxFits s) :
   intro a b ha hb
   have hcap : s.nodeCount * a + b < M.cap := by
     rw [h2]; exact bit_lt (by omega) (by omega)
-  simp only [isAdjacent, BitSet.contains, AdjWidth.bitRead_Csr, hcap, decide_true, Bool.true_and,
+  simp only [isAdjacent, BitSet.contains, AdjWidth.bitRead_Csr_eq, hcap, decide_true, Bool.true_and,
     List.contains_iff_mem, h3, List.not_mem_nil, false_or]
   constructor
   · rintro ⟨e, he, h⟩
